@@ -123,7 +123,7 @@ func genBatch(r *rand.Rand, mode string) (BatchCfg, *BatchScript) {
 		c.StopMode = false
 		pFail = 1
 	case "single":
-		c.Shape = "single"
+		c.Shape = []string{"single", "singlenilptr"}[r.Intn(2)]
 		c.Items = 1
 	case "empty":
 		c.Items = 0
@@ -134,7 +134,7 @@ func genBatch(r *rand.Rand, mode string) (BatchCfg, *BatchScript) {
 		c.W = 1 + r.Intn(3)
 		c.N = 2 + r.Intn(2)
 	}
-	if c.Shape == "single" {
+	if c.Shape == "single" || c.Shape == "singlenilptr" {
 		c.Items = 1
 	}
 	if c.Shape == "nil" {
